@@ -195,6 +195,21 @@ BAD_ARGS = [['--frobnicate'], ['-n'], ['-n', '0'], ['-n', '-3'], ['-n', 'abc'], 
             ['-f', 'fa'], ['-f', 'clustal'], ['--output', 'out.afa', '-o', 'other.afa'], ['--', 'in.fa'], ['-i', 'in.fa', '-i', 'in.fa'], ['-nq'], ['-h'], ['-v'], ['--showw']]
 
 
+OPT_NAMES = ['--format', '-f', '--type', '--gpo', '--gpe', '--tgpe', '-n', '--nthreads', '--set', '-i', '--in', '--input', '--infile', '-o', '--out', '--output', '--outfile',
+             '-q', '--quiet', '--showw', '-h', '--help', '-v', '-V', '--version', '--changename', '--reformat', '-x', '--', '-', '---', '--gp', '--t', '-nthreads', '-format']
+OPT_VALUES = ['', ' ', '0', '1', '-1', '4', '64', '100000', '2147483648', '-2147483649', '1e9', '1e10', '0.0', '-0.0', '5.5', 'nan', 'inf', '-inf', '0x10', '1,5', 'abc', 'fasta', 'fa', 'msf', 'clu',
+              'clustal', 'FASTA', 'mSf', 'dna', 'rna', 'protein', 'divergent', 'internal', 'DNA', 'prot', 'in.dat', 'missing.fa', 'res', 'out.afa', 'res/out.afa', '/', '.', '..', 'a' * 300, '%s%n%d', '\xff\xfe', '-q', '--gpo']
+
+
+def random_args(rng):
+    a = []
+    for _ in range(rng.randint(1, 5)):
+        a.append(rng.choice(OPT_NAMES))
+        if rng.random() < 0.7:
+            a.append(rng.choice(OPT_VALUES))
+    return a
+
+
 def gen_spec(prop, rng, tier):
     wl = gen.gen_workload(rng, weights=[25, 45, 12, 4, 2, 6, 6])
     vg = 1 if rng.random() < (0.02 if tier == 'quick' else 0.06) else 0
@@ -227,6 +242,8 @@ def gen_spec(prop, rng, tier):
         spec['extra_args'] = rng.choice(BAD_ARGS)
         if rng.random() < 0.3:
             spec['extra_args'] = spec['extra_args'] + rng.choice(BAD_ARGS)
+        if rng.random() < 0.4:
+            spec['extra_args'] = random_args(rng)      # option strings from a grammar: any option x any value
     if mode == 'arr':
         # the array API takes raw residue strings: allow arbitrary bytes in them for the mutated class
         seqs = list(wl['seqs'])
